@@ -118,6 +118,10 @@ def fam_argv(seed, big):
         out.append({"id": "a-env%d" % i, "class": "env", "argv": vargv("e"), "env": [[hx(k), hx(v)] for k, v in e]})
         i += 1
     out.append({"id": "a-envnone", "class": "env", "argv": vargv("inherit")})
+    # names differing only in case are different variables (each keeps its own last value)
+    out.append({"id": "a-envcase", "class": "env", "argv": vargv("case"),
+                "env": [[hx("k"), hx("1")], [hx("K"), hx("2")], [hx("k"), hx("3")], [hx("Path"), hx("p")], [hx("PATH"), hx("/usr/bin")],
+                        [hx("http_proxy"), hx("l")], [hx("HTTP_PROXY"), hx("u")]]})
     # cwd
     for d in (SP, os.path.join(SP, "cwd dir"), "/"):
         out.append({"id": "a-cwd%d" % i, "class": "cwd", "argv": vargv(), "cwd": hx(d)})
